@@ -137,3 +137,50 @@ def install(spec: Spec):
                 RaisesClause('AssertionError', label='rejected_invalid_event', tags=['C14'], ensures=NO_TRACE),
             ])
     spec.methods[('EventBus', 'dispatch')] = 'EventBus.dispatch'
+
+    # ------------------------------------------------------------------ handler selection (C01, C07)
+    # class invariant of registered handlers (established by EventBus.on's assert): plain functions have no __self__, bound methods do
+    spec.type_invariants = {'Handler': "(inspect.isfunction(x) or inspect.iscoroutinefunction(x) or inspect.ismethod(x)) and inspect.ismethod(x) == hasattr(x, '__self__')"}
+    spec.define('is_forward', ['h'], "hasattr(h, '__self__') and isinstance(h.__self__, EventBus) and h.__name__ == 'dispatch'")
+    spec.define('hid', ['bus', 'h'], "fmt2(id(bus), id(h))")
+    spec.define('forward_seen', ['event', 'h'], "is_forward(h) and h.__self__.name in event.event_path")
+    spec.define('has_result', ['bus', 'event', 'h'],
+                "hid(bus, h) in event.event_results and (event.event_results[hid(bus, h)].status == 'pending' or "
+                "event.event_results[hid(bus, h)].status == 'started' or event.event_results[hid(bus, h)].completed_at is not None)")
+    spec.define('would_skip', ['bus', 'event', 'h'], "forward_seen(event, h) or has_result(bus, event, h)")
+
+    spec.fn('EventBus._handler_dispatched_ancestor', trusted=True, params={'self': 'EventBus', 'event': 'BaseEvent', 'handler_id': 'str'}, returns='int',
+            allocates=False, ensures=[('nonneg', 'result >= 0', [])],
+            notes='recursion-depth counter over histories (reads only); assumed total and side-effect free; its value only decides the F2 RuntimeError')
+    spec.methods[('EventBus', '_handler_dispatched_ancestor')] = 'EventBus._handler_dispatched_ancestor'
+
+    spec.fn('EventBus._would_create_loop', file=S, qual='EventBus._would_create_loop',
+            params={'self': 'EventBus', 'event': 'BaseEvent', 'handler': 'Handler'}, returns='bool', allocates=False,
+            requires=[('handler_is_callable', 'inspect.isfunction(handler) or inspect.iscoroutinefunction(handler) or inspect.ismethod(handler)', ['C01']),
+                      ('only_methods_have_self', "inspect.ismethod(handler) == hasattr(handler, '__self__')", ['C07'])],
+            ensures=[('forward_skipped_if_seen', 'implies(forward_seen(event, handler), result)', ['C07']),
+                     ('already_has_result', 'implies(has_result(self, event, handler), result)', ['C01']),
+                     ('otherwise_runs', 'implies(not would_skip(self, event, handler), not result)', ['C01', 'C07'])],
+            raises=[RaisesClause('RuntimeError', label='recursion_guard', tags=['C01'],
+                                 ensures=[('never_for_forwarding', 'not is_forward(handler)', ['C07']),
+                                          ('only_if_it_would_run', 'not would_skip(self, event, handler)', ['C01'])])])
+    spec.methods[('EventBus', '_would_create_loop')] = 'EventBus._would_create_loop'
+
+    CANDS = "(self.handlers.get(event.event_type, []) + self.handlers.get('*', []))"
+    spec.fn('EventBus._get_applicable_handlers', file=S, qual='EventBus._get_applicable_handlers',
+            params={'self': 'EventBus', 'event': 'BaseEvent'}, returns='dict[str,Handler]', allocates=False,
+            locals={'applicable_handlers': 'list[Handler]', 'filtered_handlers': 'dict[str,Handler]'},
+            loops={0: {'inv': [
+                ('complete', "forall(lambda j: implies(0 <= j and j < loop_i and not would_skip(self, event, applicable_handlers[j]), "
+                             "hid(self, applicable_handlers[j]) in filtered_handlers and filtered_handlers[hid(self, applicable_handlers[j])] is applicable_handlers[j]))", ['C01']),
+                ('sound', "forall(lambda k: implies(k in filtered_handlers, hid(self, filtered_handlers[k]) == k and not would_skip(self, event, filtered_handlers[k]) "
+                          "and filtered_handlers[k] in applicable_handlers), 'str')", ['C01']),
+            ]}},
+            ensures=[
+                ('no_matching_handler_skipped', "forall(lambda j: implies(0 <= j and j < len(" + CANDS + ") and not would_skip(self, event, " + CANDS + "[j]), "
+                                                "hid(self, " + CANDS + "[j]) in result and result[hid(self, " + CANDS + "[j])] is " + CANDS + "[j]))", ['C01']),
+                ('only_matching_handlers', "forall(lambda k: implies(k in result, hid(self, result[k]) == k and not would_skip(self, event, result[k]) "
+                                           "and result[k] in " + CANDS + "), 'str')", ['C01', 'C07']),
+            ],
+            raises=[RaisesClause('RuntimeError', label='recursion_guard', tags=['C01'])])
+    spec.methods[('EventBus', '_get_applicable_handlers')] = 'EventBus._get_applicable_handlers'
